@@ -92,6 +92,18 @@ def run_pair(rec, hub, D, la, lb, ops):
                 getattr(A, op)(D[lb[0]])
             except Exception:
                 pass
+    # right operand holding, under a letter both sets have, ANOTHER dimension (fewer items, another name): what the operators keep
+    # from the left operand stays the left operand's dimension
+    shared = [l for l in la if l in lb]
+    if shared:
+        tw = fd.Dimension(letter=shared[0], name=f"reduced {shared[0]}", items=list(D[shared[0]].items)[:1])
+        Bt = fd.DimensionSet(dim_list=[tw if l == shared[0] else D[l] for l in lb])
+        for op in ops:
+            A = fd.DimensionSet(dim_list=[D[l] for l in la])
+            try:
+                getattr(A, op)(Bt)
+            except Exception:
+                pass
     # right operand holding a dimension with another letter but the NAME of one of the left operand's dimensions
     if la:
         ntw = fd.Dimension(letter="n", name=D[la[0]].name, items=["n1", "n2"])
@@ -199,7 +211,7 @@ def run_history(rec, hub, D, seed, shard, nshards, tier, h, length):
                     r = ds.prepend(nd, inplace=inplace)
                     newdims = [O.dkey(nd)] + m.dims
                 else:
-                    pos = rng.randint(0, len(m.dims))
+                    pos = rng.randint(0, len(m.dims)) if rng.random() < 0.6 else rng.randint(-len(m.dims) - 1, -1)  # also counted from the end, as in list.insert
                     r = ds.insert(pos, nd, inplace=inplace)
                     newdims = list(m.dims)
                     newdims.insert(pos, O.dkey(nd))
